@@ -97,11 +97,15 @@ func (m *MultiDoc) Build(root string) {
 //	compose    — allOf / oneOf / properties over schemas of the other document
 func c01MultiDocs(feature string) map[string]J {
 	common := J{"openapi": "3.0.3", "info": J{"title": "common", "version": "1"},
-		"paths": J{"/shared/{id}": J{"get": J{"operationId": "getShared",
-			"parameters": []interface{}{J{"name": "id", "in": "path", "required": true, "schema": J{"type": "string"}},
-				J{"name": "tags", "in": "query", "schema": J{"type": "array", "items": J{"type": "string"}}}},
-			"responses": J{"200": J{"description": "ok", "content": J{"application/json": J{"schema": J{"$ref": "#/components/schemas/Pet"}}}},
-				"404": J{"$ref": "#/components/responses/NotFound"}}}}},
+		"paths": J{
+			"/shared/{id}": J{"get": J{"operationId": "getShared",
+				"parameters": []interface{}{J{"name": "id", "in": "path", "required": true, "schema": J{"type": "string"}},
+					J{"name": "tags", "in": "query", "schema": J{"type": "array", "items": J{"type": "string"}}}},
+				"responses": J{"200": J{"description": "ok", "content": J{"application/json": J{"schema": J{"$ref": "#/components/schemas/Pet"}}}}}}},
+			"/shared2/{id}": J{"get": J{"operationId": "getShared2",
+				"parameters": []interface{}{J{"name": "id", "in": "path", "required": true, "schema": J{"type": "string"}}},
+				"responses": J{"200": J{"description": "ok", "content": J{"application/json": J{"schema": J{"$ref": "#/components/schemas/Pet"}}}},
+					"404": J{"$ref": "#/components/responses/NotFound"}}}}},
 		"components": J{
 			"schemas": J{"Pet": J{"type": "object", "required": []interface{}{"name"}, "properties": J{"name": J{"type": "string"}, "tag": J{"type": "string"}, "kind": J{"$ref": "#/components/schemas/Kind"}}},
 				"Kind":  J{"type": "string", "enum": []interface{}{"cat", "dog"}},
@@ -127,6 +131,8 @@ func c01MultiDocs(feature string) map[string]J {
 		paths["/pets"] = J{"get": J{"operationId": "listPets", "responses": J{"200": ok["200"], "404": J{"$ref": "common.json#/components/responses/NotFound"}}}}
 	case "pathitem":
 		paths["/shared/{id}"] = J{"$ref": "common.json#/paths/~1shared~1{id}"}
+	case "pathitem-response":
+		paths["/shared2/{id}"] = J{"$ref": "common.json#/paths/~1shared2~1{id}"}
 	case "compose":
 		schemas["Owner"] = J{"type": "object", "properties": J{"pet": J{"$ref": "common.json#/components/schemas/Pet"}, "pets": J{"type": "array", "items": J{"$ref": "common.json#/components/schemas/Pet"}},
 			"byName": J{"type": "object", "additionalProperties": J{"$ref": "common.json#/components/schemas/Pet"}}}}
@@ -137,7 +143,7 @@ func c01MultiDocs(feature string) map[string]J {
 	return map[string]J{"common.json": common, "api.json": main}
 }
 
-var c01MultiFeatures = []string{"schema", "parameter", "response", "pathitem", "compose"}
+var c01MultiFeatures = []string{"schema", "parameter", "response", "pathitem", "pathitem-response", "compose"}
 
 // c01MultiDocRun builds the two-document specifications under every framework, strict on and off, with and without client.
 func c01MultiDocRun(ctx *Ctx) error {
